@@ -203,12 +203,18 @@ func (s *stubHandler) Generate(*csr.ReqParam) ([]csr.AgentKey, error) {
 }
 
 // refuser is a handler that does not authenticate anybody.
-type refuser struct{ plain bool }
+type refuser struct {
+	plain bool
+	kind  gensign.ErrorType // 0: authentication failure; otherwise the kind the handler gives its refusal (named or not)
+}
 
 func (f *refuser) Name() string { return "refuser" }
 func (f *refuser) Authenticate(*csr.ReqParam) error {
 	if f.plain {
 		return fmt.Errorf("not for me")
+	}
+	if f.kind != 0 {
+		return gensign.NewErrorWithMsg(f.kind, "refuser", "not for me")
 	}
 	return gensign.NewErrorWithMsg(gensign.HandlerAuthN, "refuser", "not for me")
 }
@@ -518,7 +524,12 @@ func main() {
 					}
 					var hs []gensign.Handler
 					for k := 0; k < nRef; k++ {
-						hs = append(hs, &refuser{plain: plain != (k == 1)})
+						rf := &refuser{plain: plain != (k == 1)}
+						if !rf.plain {
+							// the refusal is of some kind of the RA's own, named or not (unknown, zero, one of a newer release)
+							rf.kind = []gensign.ErrorType{0, gensign.Unknown, gensign.HandlerDisabled, 200, gensign.InvalidParams, 0, gensign.Unknown}[(idx+k)%7]
+						}
+						hs = append(hs, rf)
 					}
 					hs = append(hs, tr)
 					r.Eval(1)
